@@ -402,7 +402,7 @@ pub fn starttls_results(ctx: &Ctx) -> Report {
         let refs: Option<Vec<String>> = if rc == 10 || rng.chance(1, 4) { Some((0..1 + rng.usize(3)).map(|k| format!("ldap://tls{}.example.org/dc=x??sub", k)).collect()) } else { None };
         let res = Res { rc, matched: if rng.bool() { "dc=matched".into() } else { String::new() }, text: format!("t:starttls:{}:{}", r, rng.ustring(12)), refs: refs.clone() };
         let name = if rng.bool() { Some("1.3.6.1.4.1.1466.20037".to_string()) } else { None };
-        let refusal = Refusal { strays: vec![], res: res.clone(), name, split: rng.bool() };
+        let refusal = Refusal { strays: vec![], res: res.clone(), name, split: rng.bool(), raw_answer: None };
         let replay = json!({"lane":"starttls_results","rep":r,"rc":rc,"refs":refs});
         if hung {
             break;
